@@ -183,6 +183,11 @@ def reference(desc, rows, leaky=False):
                     continue
                 agg = fl.Aggregated(ov.name, ov.minimum, ov.maximum, ov.aggregation,
                                     [fl.Activated(ov.term(t), d, G.norm(i)) for (t, d, i) in fuzzy[ov.name]])
+                if isinstance(ov.defuzzifier, fl.IntegralDefuzzifier) and ov.aggregation is not None and \
+                        all(i not in (None, "none") for (_, _, i) in fuzzy[ov.name]):
+                    # the aggregated fuzzy set written out from the documented formula (own wiring over the norms and the
+                    # term memberships only): every contribution under ITS implication, combined in order
+                    agg = RefAggregated(ov, [(ov.term(t), d, G.norm(i)) for (t, d, i) in fuzzy[ov.name]])
                 try:
                     raw = float(ov.defuzzifier.defuzzify(agg, ov.minimum, ov.maximum))
                 except Exception as ex:  # noqa: BLE001
@@ -244,6 +249,21 @@ def key(case):
     return "engine"
 
 
+class RefAggregated(fl.Term):
+    """mu(x) = S_k ( T_k(degree_k, mu_term_k(x)) ) over the contributions in order, starting from 0"""
+
+    def __init__(self, ov, contributions):
+        super().__init__(ov.name)
+        self.ov, self.contributions = ov, contributions
+
+    def membership(self, x):
+        y = fl.scalar(0.0)
+        for term, degree, implication in self.contributions:
+            d = float(np.nan_to_num(degree, nan=0.0, neginf=0.0, posinf=1.0))
+            y = self.ov.aggregation.compute(y, implication.compute(d, term.membership(x)))
+        return y
+
+
 def oracle(case, leaky=False):
     desc, rows = case["engine"], case["rows"]
     impl = run_impl(desc, rows)
@@ -273,10 +293,31 @@ def has_leak(desc):
     return False
 
 
+def shared_conclusions(desc, rng):
+    """a second rule block that concludes the SAME terms as the first one under a different implication (the
+    contributions of one term then differ in their implication); every aggregation operator, Maximum included"""
+    import copy
+    b0 = desc["blocks"][0]
+    b1 = copy.deepcopy(b0)
+    b1["name"] = "rb_shared"
+    pool = [t for t in (G.EXACT_T if desc["exact"] else G.CONT_T) if t != b0["implication"]]
+    b1["implication"] = rng.choice(pool)
+    for r in b1["rules"]:
+        r["weight"] = rng.choice([1.0, 0.5, 0.25])
+    b0["enabled"] = b1["enabled"] = True
+    desc["blocks"] = [b0, b1]
+    for o in desc["outputs"]:
+        if "resolution" in o["defuzzifier"] and rng.random() < 0.6:
+            o["aggregation"] = "Maximum"
+    return desc
+
+
 def gen_cases(ctx, activation="mixed"):
     rng = ctx.rng
     for i in range(ctx.scale(260, 2500)):
         desc = G.gen_engine(rng, activation="general" if rng.random() < 0.5 else "mixed")
+        if i % 8 == 3:
+            desc = shared_conclusions(desc, rng)
         rows = G.gen_rows(rng, desc, ctx.scale(5, 6))
         yield {"engine": desc, "rows": rows, "tag": KNOWN_F3 if has_leak(desc) else "engine"}
 
